@@ -390,6 +390,17 @@ func init() {
 			return "", err
 		}
 		sb.WriteString("def newGroupAssigns : List String := " + LeanStrList(append(c08Assigns(ncg, "ackSeq"), c08Assigns(ncg, "consumedSeq")...)) + "\n")
+		// round 12: IsReady's handshake as ONE regenerated decision tree (facts_c08_plan.go)
+		plan, err := c08HandshakePlan(isReady)
+		if err != nil {
+			return "", err
+		}
+		sb.WriteString(plan)
+		rplan, err := c08ReplicaPlan(replica)
+		if err != nil {
+			return "", err
+		}
+		sb.WriteString(rplan)
 		return sb.String(), nil
 	}})
 }
